@@ -82,7 +82,27 @@ func RunTree(r *vh.Run, rng *vh.RNG, name string, t *chainx.Tree, sched [][]int)
 		c.Op(b.DeclLine(), "ok")
 	}
 	pruned := map[int]bool{}
-	prunes, resub, belowForks := 0, 0, 0
+	prunes, resub, belowForks, restarts := 0, 0, 0, 0
+	// restart: the process stops and the node is reopened from the same database (a new DBStore
+	// and Manager); everything the property speaks about is in the store, so nothing may change
+	restart := func() {
+		if err := nd.Store.Flush(); err != nil {
+			c.Oracle("flush-error", "%v", err)
+			return
+		}
+		before := c01.Observe(t, nd, "ok")
+		nd2, err := t.Net.NewNode(nd.DB)
+		if err != nil {
+			c.Oracle("reopen-error", "reopening the pruned node's database failed: %v", err)
+			return
+		}
+		nd2.Reorgs = nd.Reorgs
+		nd = nd2
+		restarts++
+		if after := c01.Observe(t, nd, "ok"); after != before {
+			c.Oracle("restart-changed-chain", "before: %s; after reopening: %s", before, after)
+		}
+	}
 	diverged := false // the twin can reorg below the pruned height; from then on only sanity is checked
 	doPrune := func(h uint64) {
 		tipH := nd.CM.Tip().Height
@@ -193,6 +213,7 @@ func RunTree(r *vh.Run, rng *vh.RNG, name string, t *chainx.Tree, sched [][]int)
 			}
 		}
 		minre := idOf(t, nd.CM.MinReorgIndex().ID)
+		beforeObs := c01.Observe(t, nd, "x")
 		res := c01.Submit(nd, t.Get(batch))
 		tres := c01.Submit(twin, t.Get(batch))
 		var sb strings.Builder
@@ -204,6 +225,12 @@ func RunTree(r *vh.Run, rng *vh.RNG, name string, t *chainx.Tree, sched [][]int)
 		if res == "panic" {
 			c.Oracle("addblocks-panic-after-prune", "AddBlocks panicked on batch %v (pruned: %v)", batch, keys(pruned))
 			break
+		}
+		if res != "ok" {
+			// whatever the reason, a refused batch leaves the best chain and the notifications alone
+			if after := c01.Observe(t, nd, "x"); after != beforeObs {
+				c.Oracle("failed-submission-changed-chain", "AddBlocks returned %s; before: %s; after: %s", res, beforeObs, after)
+			}
 		}
 		if !diverged && res != tres {
 			// allowed only when the twin reorged below the pruned node's minimum reorg index
@@ -230,6 +257,9 @@ func RunTree(r *vh.Run, rng *vh.RNG, name string, t *chainx.Tree, sched [][]int)
 				observeSome()
 			} else if bi == 0 {
 				doPrune(3)
+				if strings.Contains(name, "restart") {
+					restart()
+				}
 				observeAll()
 			}
 			continue
@@ -240,6 +270,9 @@ func RunTree(r *vh.Run, rng *vh.RNG, name string, t *chainx.Tree, sched [][]int)
 			doPrune(choices[rng.Intn(len(choices))])
 			if rng.Chance(1, 4) {
 				doPrune(choices[rng.Intn(len(choices))]) // repeated prune
+			}
+			if rng.Chance(1, 3) {
+				restart()
 			}
 			observeAll()
 		}
@@ -253,7 +286,10 @@ func RunTree(r *vh.Run, rng *vh.RNG, name string, t *chainx.Tree, sched [][]int)
 	if belowForks > 0 {
 		c.Tags = append(c.Tags, "fork-below-pruned")
 	}
-	c.Info = map[string]any{"prunes": prunes, "pruned_blocks": len(pruned), "resubmissions": resub}
+	if restarts > 0 {
+		c.Tags = append(c.Tags, "restart-after-prune")
+	}
+	c.Info = map[string]any{"prunes": prunes, "pruned_blocks": len(pruned), "resubmissions": resub, "restarts": restarts}
 	r.Add(c)
 }
 
@@ -280,6 +316,8 @@ func directed(r *vh.Run, rng *vh.RNG) {
 	}
 	main := t.PathFromRoot(tip)
 	RunTree(r, rng, "directed/resubmit-then-reorg", t, [][]int{main, main[:2], t.PathFromRoot(fork)})
+	// the same with the process restarted between the prune and the resubmission
+	RunTree(r, rng, "directed/restart-resubmit-then-reorg", t, [][]int{main, main[:2], main, t.PathFromRoot(fork)})
 }
 
 // longChain: pruning switched on for an existing long chain — more than a thousand unpruned
